@@ -428,7 +428,7 @@ func (c *conn) QueryContext(ctx context.Context, q string, args []driver.NamedVa
 }
 
 func sleepCtx(ctx context.Context, d time.Duration) error {
-	t := time.NewTimer(d)
+	t := time.NewTimer(d + simrt.Skew())
 	defer t.Stop()
 	select {
 	case <-t.C:
